@@ -1,24 +1,316 @@
 import RagcModel.Model.Kmer
+import RagcModel.Lemmas.Kmer
 /-!
 C20 — canonical k-mer arithmetic is window-exact and strand-symmetric.
-Only property theorems live here (helper lemmas are in `Lemmas/`).
+Only property theorems live here (helper lemmas are in `Lemmas/Kmer.lean`).
+
+Specification vocabulary (defined in `Lemmas/Kmer.lean`, all computable):
+* `Valid w`        : every symbol of `w` is `≤ 3` (the code resets on `b > 3`);
+* `packNat w`      : `Σ wᵢ · 4^(|w|-1-i)`;
+* `packDir w`      : `UInt64.ofNat (packNat w · 4^(32-|w|))`, i.e. base `i` at bits `63-2i..62-2i`;
+* `rcWindow w`     : `w.reverse.map (3 - ·)`;
+* `canon w`        : `min (packDir w) (packDir (rcWindow w))`;
+* `specWindows k l`: canonical values of the `k`-windows of `l` that consist of bases only.
 -/
 namespace Ragc.Props.C20
 open Ragc.Kmer
 
+/-! ### The specification itself is meaningful -/
+
 /-- Complementing a base twice is the identity on the four bases. -/
 theorem rcBase_involutive (b : UInt64) (h : b < 4) : rcBase (rcBase b) = b := by
-  have h4 : b.toNat < 4 := by simpa using UInt64.lt_iff_toNat_lt.mp h
-  have : b = 0 ∨ b = 1 ∨ b = 2 ∨ b = 3 := by
-    rcases Nat.lt_or_ge b.toNat 1 with h0 | h0
-    · left; apply UInt64.toNat_inj.mp; simp; omega
-    rcases Nat.lt_or_ge b.toNat 2 with h1 | h1
-    · right; left; apply UInt64.toNat_inj.mp; simp; omega
-    rcases Nat.lt_or_ge b.toNat 3 with h2 | h2
-    · right; right; left; apply UInt64.toNat_inj.mp; simp; omega
-    · right; right; right; apply UInt64.toNat_inj.mp; simp; omega
-  rcases this with rfl | rfl | rfl | rfl <;> decide
+  have h3 : b ≤ 3 := by
+    have := UInt64.lt_iff_toNat_lt.mp h
+    exact UInt64.le_iff_toNat_le.mpr (by simp at this ⊢; omega)
+  rw [rcBase_eq h3, rcBase_eq (three_sub_le3 h3), three_sub_three_sub h3]
 
 example : rcBase (rcBase 2) = 2 := rcBase_involutive 2 (by decide)
+
+/-- `packDir` is the advertised number: no truncation happens for `|w| ≤ 32`. -/
+theorem packDir_spec (w : List UInt64) (hv : Valid w) (hl : w.length ≤ 32) :
+    (packDir w).toNat = packNat w * 4 ^ (32 - w.length) :=
+  packDir_toNat hv hl
+
+example : (packDir [1, 2, 3]).toNat = (1 * 16 + 2 * 4 + 3) * 4 ^ 29 := by decide
+
+/-- Window-exact: two windows of the same length with the same packing are the same window. -/
+theorem packDir_injective (v w : List UInt64) (hv : Valid v) (hw : Valid w)
+    (hl : v.length = w.length) (h32 : w.length ≤ 32) (h : packDir v = packDir w) : v = w := by
+  have h1 := packDir_toNat hv (by omega)
+  have h2 := packDir_toNat hw h32
+  rw [h, h2, hl] at h1
+  exact packNat_inj hv hw hl (Nat.eq_of_mul_eq_mul_right (Nat.pow_pos (by decide)) h1).symm
+
+example : packDir [0, 1] ≠ packDir [1, 0] := by decide
+
+/-- Reverse-complementing a window twice gives the window back. -/
+theorem rcWindow_involutive (w : List UInt64) (hv : Valid w) : rcWindow (rcWindow w) = w :=
+  rcWindow_rcWindow hv
+
+example : rcWindow [0, 0, 1, 3] = [0, 2, 3, 3] ∧ rcWindow [0, 2, 3, 3] = [0, 0, 1, 3] := by decide
+
+/-! ### 4. Canonical value and direction flag of any state -/
+
+theorem canonical_min (km : Kmer) : data km = min km.dir km.rc := rfl
+
+theorem dir_flag_iff (km : Kmer) : isDirOriented km = true ↔ km.dir ≤ km.rc := by
+  simp [isDirOriented]
+
+example : data { dir := 7, rc := 5, cur := 1, k := 1 } = 5
+    ∧ isDirOriented { dir := 7, rc := 5, cur := 1, k := 1 } = false := by decide
+
+/-! ### 2. Sliding equals computing from scratch -/
+
+/-- After sliding over *any* symbols `pre` (bases, `N`s, anything) followed by `k` bases `w`,
+    the state is exactly the from-scratch packing of `w` and of its reverse complement. -/
+theorem slide_eq_scratch (k : Nat) (h1 : 1 ≤ k) (h32 : k ≤ 32) (pre w : List UInt64)
+    (hw : Valid w) (hl : w.length = k) :
+    (feed (new k) (pre ++ w)).dir = packDir w
+      ∧ (feed (new k) (pre ++ w)).rc = packDir (rcWindow w)
+      ∧ (feed (new k) (pre ++ w)).cur = k
+      ∧ isFull (feed (new k) (pre ++ w)) = true := by
+  have h := inv_feed_window h1 h32 pre w hw hl
+  refine ⟨h.dir, h.rc, by rw [h.cur, hl], ?_⟩
+  rw [inv_isFull h]; simpa using hl
+
+example : (feed (new 3) ([0, 1, 4, 2] ++ [2, 3, 1])).dir = packDir [2, 3, 1]
+    ∧ (feed (new 3) ([0, 1, 4, 2] ++ [2, 3, 1])).rc = packDir [2, 0, 1] := by decide
+
+/-- A non-ACGT symbol restarts the window: after it and `n < k` bases the state holds just
+    those `n` bases and is not full. -/
+theorem slide_restart (k : Nat) (h1 : 1 ≤ k) (h32 : k ≤ 32) (pre v : List UInt64) (bad : UInt64)
+    (hbad : bad > 3) (hv : Valid v) (hl : v.length < k) :
+    (feed (new k) (pre ++ bad :: v)).cur = v.length
+      ∧ isFull (feed (new k) (pre ++ bad :: v)) = false
+      ∧ (feed (new k) (pre ++ bad :: v)).dir = packDir v
+      ∧ (feed (new k) (pre ++ bad :: v)).rc = packDir (rcWindow v) := by
+  have h := inv_feed_partial h1 h32 pre v bad hbad hv (by omega)
+  refine ⟨h.cur, ?_, h.dir, h.rc⟩
+  rw [inv_isFull h]; simp; omega
+
+example : (feed (new 3) ([0, 1, 2, 3] ++ 4 :: [2, 3])).cur = 2
+    ∧ (feed (new 3) ([0, 1, 2, 3] ++ 4 :: [2, 3])).dir = packDir [2, 3] := by decide
+
+/-- From the initial state: after `n ≤ k` bases the state holds those bases. -/
+theorem slide_prefix (k : Nat) (h1 : 1 ≤ k) (h32 : k ≤ 32) (v : List UInt64)
+    (hv : Valid v) (hl : v.length ≤ k) :
+    (feed (new k) v).cur = v.length
+      ∧ (feed (new k) v).dir = packDir v
+      ∧ (feed (new k) v).rc = packDir (rcWindow v) := by
+  have h := inv_feed_valid h1 h32 v (new k) [] (inv_new k) hv
+  rw [List.nil_append, lastK_of_length_le hl] at h
+  exact ⟨h.cur, h.dir, h.rc⟩
+
+example : (feed (new 5) [3, 1]).cur = 2 ∧ (feed (new 5) [3, 1]).rc = packDir [2, 0] := by decide
+
+/-- Sliding gives the smaller packing, and the flag says which one it is. -/
+theorem slide_canonical (k : Nat) (h1 : 1 ≤ k) (h32 : k ≤ 32) (pre w : List UInt64)
+    (hw : Valid w) (hl : w.length = k) :
+    data (feed (new k) (pre ++ w)) = min (packDir w) (packDir (rcWindow w))
+      ∧ (isDirOriented (feed (new k) (pre ++ w)) = true ↔ packDir w ≤ packDir (rcWindow w)) := by
+  obtain ⟨hd, hr, _, _⟩ := slide_eq_scratch k h1 h32 pre w hw hl
+  rw [canonical_min, dir_flag_iff, hd, hr]
+  exact ⟨rfl, Iff.rfl⟩
+
+example : data (feed (new 2) ([1, 9] ++ [3, 1])) = packDir [2, 0]
+    ∧ isDirOriented (feed (new 2) ([1, 9] ++ [3, 1])) = false := by decide
+
+/-! ### 3. No addition wraps, no shift amount reaches 64 (shared with C18) -/
+
+/-- In every state reachable by `feed` from `new k`, inserting a base performs no wrapping
+    addition (`toNat` of the `UInt64` sum is the sum of the `toNat`s), `64 - 2k` and
+    `64 - 2(cur+1)` do not underflow, and every shift amount is `< 64`. -/
+theorem no_overflow (k : Nat) (h1 : 1 ≤ k) (h32 : k ≤ 32) (xs : List UInt64) (s : UInt64)
+    (hs : s ≤ 3) :
+    let km := feed (new k) xs
+    km.k = k ∧ km.cur ≤ k ∧ 2 * k ≤ 64 ∧ shiftOf k < 64
+      ∧ ((km.rc >>> 2) + (rcBase s <<< 62)).toNat = (km.rc >>> 2).toNat + (rcBase s <<< 62).toNat
+      ∧ (km.cur = km.k →
+          ((km.dir <<< 2) + (s <<< UInt64.ofNat (shiftOf km.k))).toNat
+            = (km.dir <<< 2).toNat + (s <<< UInt64.ofNat (shiftOf km.k)).toNat)
+      ∧ (km.cur ≠ km.k →
+          2 * (km.cur + 1) ≤ 64 ∧ 64 - 2 * (km.cur + 1) < 64
+            ∧ (km.dir + (s <<< UInt64.ofNat (64 - 2 * (km.cur + 1)))).toNat
+              = km.dir.toNat + (s <<< UInt64.ofNat (64 - 2 * (km.cur + 1))).toNat) := by
+  intro km
+  obtain ⟨u, h⟩ : ∃ u, Inv k km u := inv_feed_exists h1 h32 xs (new k) [] (inv_new k)
+  clear_value km
+  have hlen := h.len
+  have hc : 3 - s ≤ 3 := three_sub_le3 hs
+  have hvr := rcWindow_valid h.valid
+  refine ⟨h.hk, by rw [h.cur]; exact hlen, by omega, by unfold shiftOf; omega, ?_, ?_, ?_⟩
+  · rw [UInt64.toNat_add]
+    apply Nat.mod_eq_of_lt
+    show (km.rc >>> 2).toNat + _ < _
+    rw [h.rc, rcBase_eq hs]
+    by_cases hfull : u.length = 32
+    · rcases List.eq_nil_or_concat (rcWindow u) with h0 | ⟨r, e, hre⟩
+      · have := rcWindow_length u
+        rw [h0] at this; simp at this; omega
+      · rw [List.concat_eq_append] at hre
+        rw [hre]
+        exact (packDir_rc_step32_aux (by rw [← hre]; exact hvr)
+          (by rw [← hre, rcWindow_length]; exact hfull) hc).2
+    · exact (packDir_rc_step_aux hvr (by rw [rcWindow_length]; omega) hc).2
+  · intro hcur
+    rw [UInt64.toNat_add]
+    apply Nat.mod_eq_of_lt
+    show (km.dir <<< 2).toNat + (s <<< UInt64.ofNat (shiftOf km.k)).toNat < _
+    have hfull : u.length = k := by have := h.cur; have := h.hk; omega
+    rw [h.dir, h.hk]
+    cases u with
+    | nil => simp at hfull; omega
+    | cons d u' => exact (packDir_slide_aux h.valid hfull h32 hs).2
+  · intro hcur
+    have hlt : u.length < k := by
+      have := h.cur; have := h.hk; omega
+    have hcu : km.cur = u.length := h.cur
+    refine ⟨by omega, by omega, ?_⟩
+    rw [UInt64.toNat_add]
+    apply Nat.mod_eq_of_lt
+    show km.dir.toNat + (s <<< UInt64.ofNat (64 - 2 * (km.cur + 1))).toNat < _
+    rw [h.dir, hcu]
+    exact (packDir_grow_aux h.valid (by omega) hs).2
+
+example : ((feed (new 32) [3, 3, 3]).dir + ((3 : UInt64) <<< UInt64.ofNat (64 - 2 * 4))).toNat
+    = (feed (new 32) [3, 3, 3]).dir.toNat + ((3 : UInt64) <<< UInt64.ofNat (64 - 2 * 4)).toNat := by
+  decide
+
+/-- The shift amounts of `reverse_complement_kmer` stay below 64 as well. -/
+theorem rc_kmer_shifts (k i : Nat) (h1 : 1 ≤ k) (h32 : k ≤ 32) (hi : i < k) :
+    2 * k ≤ 64 ∧ shiftOf k + 2 * i < 64 ∧ shiftOf k + 2 * (k - 1 - i) < 64 := by
+  unfold shiftOf; omega
+
+example : shiftOf 32 + 2 * 31 < 64 := (rc_kmer_shifts 32 31 (by decide) (by decide) (by decide)).2.1
+
+/-! ### 5. Strand symmetry -/
+
+/-- The canonical value of a window equals the canonical value of its reverse complement. -/
+theorem canonical_rc (w : List UInt64) (hv : Valid w) : canon (rcWindow w) = canon w := by
+  unfold canon
+  rw [rcWindow_rcWindow hv]
+  generalize packDir w = a
+  generalize packDir (rcWindow w) = b
+  show (if b ≤ a then b else a) = (if a ≤ b then a else b)
+  by_cases h1 : a ≤ b <;> by_cases h2 : b ≤ a
+  · rw [if_pos h1, if_pos h2]; exact UInt64.le_antisymm h2 h1
+  · rw [if_pos h1, if_neg h2]
+  · rw [if_neg h1, if_pos h2]
+  · rcases UInt64.le_total a b with h | h
+    · exact absurd h h1
+    · exact absurd h h2
+
+example : canon (rcWindow [3, 1, 0]) = canon [3, 1, 0] ∧ rcWindow [3, 1, 0] ≠ [3, 1, 0] := by decide
+
+/-- … hence sliding over a window or over its reverse complement (in whatever contexts)
+    yields the same canonical k-mer, with opposite direction flags unless palindromic. -/
+theorem slide_canonical_rc (k : Nat) (h1 : 1 ≤ k) (h32 : k ≤ 32) (pre pre' w : List UInt64)
+    (hw : Valid w) (hl : w.length = k) :
+    data (feed (new k) (pre' ++ rcWindow w)) = data (feed (new k) (pre ++ w)) := by
+  rw [(slide_canonical k h1 h32 pre w hw hl).1,
+    (slide_canonical k h1 h32 pre' (rcWindow w) (rcWindow_valid hw)
+      (by rw [rcWindow_length]; exact hl)).1]
+  exact canonical_rc w hw
+
+example : data (feed (new 3) ([2, 2] ++ rcWindow [3, 1, 0])) = data (feed (new 3) ([5] ++ [3, 1, 0])) := by
+  decide
+
+/-! ### 6. `reverse_complement_kmer` / `canonical_kmer` on packed values -/
+
+theorem rc_kmer_spec (k : Nat) (h32 : k ≤ 32) (w : List UInt64) (hv : Valid w)
+    (hl : w.length = k) : reverseComplementKmer (packDir w) k = packDir (rcWindow w) :=
+  reverseComplementKmer_packDir h32 w hv hl
+
+example : reverseComplementKmer (packDir [0, 0, 1, 3]) 4 = packDir [0, 2, 3, 3] := by decide
+
+theorem rc_kmer_involutive (k : Nat) (h32 : k ≤ 32) (w : List UInt64) (hv : Valid w)
+    (hl : w.length = k) :
+    reverseComplementKmer (reverseComplementKmer (packDir w) k) k = packDir w := by
+  rw [rc_kmer_spec k h32 w hv hl,
+    rc_kmer_spec k h32 (rcWindow w) (rcWindow_valid hv) (by rw [rcWindow_length]; exact hl),
+    rcWindow_rcWindow hv]
+
+example : reverseComplementKmer (reverseComplementKmer (packDir [0, 0, 1, 3]) 4) 4
+    = packDir [0, 0, 1, 3] := by decide
+
+/-- Stated on raw 64-bit values: every `x` whose `64 - 2k` low bits are zero (that is, every
+    packed k-mer) is fixed by reverse-complementing twice. -/
+theorem rc_kmer_involutive_aligned (k : Nat) (h32 : k ≤ 32) (x : UInt64)
+    (hx : x.toNat % 4 ^ (32 - k) = 0) :
+    reverseComplementKmer (reverseComplementKmer x k) k = x := by
+  obtain ⟨w, hv, hl, rfl⟩ := exists_window k h32 x hx
+  exact rc_kmer_involutive k h32 w hv hl
+
+example : reverseComplementKmer (reverseComplementKmer 0x1B00000000000000 4) 4
+    = 0x1B00000000000000 :=
+  rc_kmer_involutive_aligned 4 (by decide) _ (by decide)
+
+theorem canonical_kmer_spec (k : Nat) (h32 : k ≤ 32) (w : List UInt64) (hv : Valid w)
+    (hl : w.length = k) :
+    canonicalKmer (packDir w) k = min (packDir w) (packDir (rcWindow w)) := by
+  unfold canonicalKmer
+  rw [rc_kmer_spec k h32 w hv hl]; rfl
+
+example : canonicalKmer (packDir [3, 1]) 2 = packDir [2, 0] := by decide
+
+/-- The one-shot function agrees with the sliding window. -/
+theorem canonical_kmer_eq_slide (k : Nat) (h1 : 1 ≤ k) (h32 : k ≤ 32) (pre w : List UInt64)
+    (hw : Valid w) (hl : w.length = k) :
+    canonicalKmer (packDir w) k = data (feed (new k) (pre ++ w)) := by
+  rw [canonical_kmer_spec k h32 w hw hl, (slide_canonical k h1 h32 pre w hw hl).1]
+
+example : canonicalKmer (packDir [3, 1]) 2 = data (feed (new 2) ([0, 7] ++ [3, 1])) := by decide
+
+/-! ### 7. `enumerate_kmers` -/
+
+/-- `enumerate_kmers` returns exactly the canonical values of the `k`-windows made of bases
+    only, in order of position. -/
+theorem enumerate_spec (k : Nat) (h1 : 1 ≤ k) (h32 : k ≤ 32) (contig : List UInt64) :
+    enumerateKmers contig k = specWindows k contig := by
+  unfold enumerateKmers
+  by_cases h : contig.length < k
+  · rw [if_pos h, specWindows_short _ h]
+  · rw [if_neg h, enumLoop_spec h1 h32 contig (new k) [] (inv_new k)]
+    simp [lastK]
+
+example : enumerateKmers [0, 1, 2, 4, 3, 3, 0, 1] 3
+    = [canon [0, 1, 2], canon [3, 3, 0], canon [3, 0, 1]] := by decide
+
+/-- The same, with the window list written out by start position `i = 0 … |contig| - k`. -/
+theorem enumerate_spec_positions (k : Nat) (h1 : 1 ≤ k) (h32 : k ≤ 32) (contig : List UInt64) :
+    enumerateKmers contig k = (List.range (contig.length + 1 - k)).filterMap (fun i =>
+      if Valid ((contig.drop i).take k) then some (canon ((contig.drop i).take k)) else none) := by
+  rw [enumerate_spec k h1 h32, specWindows_eq_positions k h1]
+
+example : (List.range ([0, 1, 2, 4, 3, 3, 0, 1].length + 1 - 3)).filterMap (fun i =>
+      if Valid ((([0, 1, 2, 4, 3, 3, 0, 1] : List UInt64).drop i).take 3)
+      then some (canon ((([0, 1, 2, 4, 3, 3, 0, 1] : List UInt64).drop i).take 3)) else none)
+    = [canon [0, 1, 2], canon [3, 3, 0], canon [3, 0, 1]] := by decide
+
+theorem enumerate_short (k : Nat) (contig : List UInt64) (h : contig.length < k) :
+    enumerateKmers contig k = [] := by
+  unfold enumerateKmers; rw [if_pos h]
+
+example : enumerateKmers [0, 1] 3 = [] := enumerate_short 3 [0, 1] (by decide)
+
+/-! ### 8. The `k = 32` edge (shift 0, full mask) is an instance, not a special case -/
+
+example (pre w : List UInt64) (hw : Valid w) (hl : w.length = 32) :
+    (feed (new 32) (pre ++ w)).dir = packDir w
+      ∧ (feed (new 32) (pre ++ w)).rc = packDir (rcWindow w) :=
+  let h := slide_eq_scratch 32 (by decide) (by decide) pre w hw hl
+  ⟨h.1, h.2.1⟩
+
+theorem k32_edge : shiftOf 32 = 0 ∧ maskOf 32 = 0xFFFFFFFFFFFFFFFF
+    ∧ ∀ (pre w : List UInt64), Valid w → w.length = 32 →
+        data (feed (new 32) (pre ++ w)) = min (packDir w) (packDir (rcWindow w)) :=
+  ⟨by decide, by decide, fun pre w hw hl =>
+    (slide_canonical 32 (by decide) (by decide) pre w hw hl).1⟩
+
+set_option maxRecDepth 8192 in
+example :
+    let w : List UInt64 := [3,3,3,3,3,3,3,3,3,3,3,3,3,3,3,3,3,3,3,3,3,3,3,3,3,3,3,3,3,3,3,2]
+    (feed (new 32) ([0, 1] ++ w)).dir = 0xFFFFFFFFFFFFFFFE
+      ∧ (feed (new 32) ([0, 1] ++ w)).rc = 0x4000000000000000 := by decide
 
 end Ragc.Props.C20
